@@ -189,3 +189,47 @@ type os_stdout struct{}
 func (os_stdout) Write(b []byte) (int, error) { fmt.Print(string(b)); return len(b), nil }
 
 var _ = ssa.NewProgram
+
+func dumpMore(p *Prog, m *Models, args []string) int {
+	switch args[0] {
+	case "keys":
+		g, err := m.Grammar()
+		if err != nil {
+			fmt.Println(err)
+			return 1
+		}
+		for _, tok := range args[2:] {
+			fmt.Println("==", tok)
+			var pr func(ind string, ks map[string]*ValDesc)
+			pr = func(ind string, ks map[string]*ValDesc) {
+				for _, k := range sortedKeys(ks) {
+					fmt.Printf("%s%-40s %s\n", ind, k, ks[k])
+					d := ks[k]
+					if d.GoType == "[]any" && d.Elem != nil {
+						d = d.Elem
+					}
+					if d.Block != nil {
+						pr(ind+"    ", g.BlockKeys(tok, d.Block))
+					}
+				}
+			}
+			pr("  ", g.TopKeys(tok))
+		}
+		return 0
+	case "sections":
+		sm := m.Sections()
+		toks, _ := m.HandlerTokens()
+		hs, _ := m.Handlers()
+		for _, t := range toks {
+			if n := sm.sec[hs[t]]; n != 1 {
+				fmt.Printf("%-28s %-22s sections=%d", t, fnName(hs[t]), n)
+				for _, w := range sm.wit[hs[t]] {
+					fmt.Printf("  %s", p.Pos(p.InstrPos(w)))
+				}
+				fmt.Println()
+			}
+		}
+		return 0
+	}
+	return 2
+}
